@@ -45,6 +45,7 @@ type c11World struct {
 	wg      sync.WaitGroup
 	accepted atomic.Int64
 	stopAccept chan struct{}
+	onAccept   func(p *c11Peer, s *UDPSession) // called before the handlers of an accepted session start
 }
 
 type c11Scenario struct {
@@ -96,6 +97,9 @@ func (w *c11World) acceptLoop() {
 		w.mu.Lock()
 		w.sessions = append(w.sessions, s)
 		w.mu.Unlock()
+		if w.onAccept != nil {
+			w.onAccept(p, s)
+		}
 		w.wg.Add(2)
 		go w.serverReader(p, s)
 		go w.serverWriter(p, s)
@@ -270,7 +274,8 @@ func runC11(t *testing.T, rec *vrec, sc *c11Scenario, rng *vrng) {
 	refTime = time.Now()
 	yieldMode.Store(1)
 	defer yieldMode.Store(0)
-	w := &c11World{sessWorld: sw, sc: sc, peers: map[string]*c11Peer{}, extra: map[string]bool{}}
+	scCopy := *sc
+	w := &c11World{sessWorld: sw, sc: &scCopy, peers: map[string]*c11Peer{}, extra: map[string]bool{}}
 	w.listen()
 	laddrS = w.laddr.String()
 	// capture datagrams towards the listener per source (for replay injection)
@@ -445,8 +450,6 @@ func runC11(t *testing.T, rec *vrec, sc *c11Scenario, rng *vrng) {
 	if backlog {
 		limit = 2 * time.Minute
 	}
-	done := make(chan struct{})
-	go func() { w.wg.Wait(); close(done) }()
 	complete := func() bool {
 		for _, p := range peers {
 			if p.closedByReconnect.Load() {
@@ -478,6 +481,9 @@ func runC11(t *testing.T, rec *vrec, sc *c11Scenario, rng *vrng) {
 	rec.count("injections_judged", int64(injected))
 	// shut down: sessions, listener, transports
 	w.shutdown(nil, false)
+	synctest.Wait() // the accept loop has ended: no more handlers are started
+	done := make(chan struct{})
+	go func() { w.wg.Wait(); close(done) }()
 	select {
 	case <-done:
 	case <-time.After(time.Minute):
